@@ -6,6 +6,7 @@ package main
 
 import (
 	"fmt"
+	"go/token"
 	"go/types"
 	"os"
 	"sort"
@@ -199,6 +200,8 @@ func scanSharedWrites(w *World) (checked []string, findings []writeFinding, assu
 							// a byte buffer handed to a dependency that fills it (Read*, ReadFrom*, ...) is a write
 							if isByteSlice(a.Type()) && fillsBuffer(callee) {
 								report(fmt.Sprintf("shared byte buffer passed to %s, which writes into it", callee.String()), in)
+							} else if i == 0 && callee.Signature.Recv() != nil && mutatingMethodName(callee.Name()) && !readOnlyGlobal(a) {
+								report(fmt.Sprintf("mutating method %s of a dependency called on a shared value", callee.String()), in)
 							}
 						case cm.IsInvoke():
 							// interface method on a shared value: module interfaces are resolved through all implementers
@@ -218,6 +221,9 @@ func scanSharedWrites(w *World) (checked []string, findings []writeFinding, assu
 								}
 								if !safeDep(pk) && pk != "" {
 									report("interface call "+cm.Method.FullName()+" on a shared value (unknown implementation)", in)
+								} else if i == 0 && mutatingMethodName(cm.Method.Name()) && !readOnlyGlobal(a) {
+									// e.g. gopacket.DecodingLayerContainer.Put on a container kept in a package-level variable
+									report("mutating interface method "+cm.Method.FullName()+" of a dependency called on a shared value", in)
 								}
 							}
 						default:
@@ -305,6 +311,16 @@ func isByteSlice(t types.Type) bool {
 	}
 	b, ok := sl.Elem().Underlying().(*types.Basic)
 	return ok && b.Kind() == types.Uint8
+}
+
+// mutatingMethodName: names under which dependency types change their receiver (or what it refers to).
+func mutatingMethodName(n string) bool {
+	for _, p := range []string{"Put", "Set", "Add", "Write", "Reset", "Insert", "Delete", "Remove", "Store", "Register", "Clear", "Append", "Push", "Pop", "Grow", "Truncate", "Seed", "Next", "Update", "Swap", "Inc", "Dec", "Observe"} {
+		if strings.HasPrefix(n, p) {
+			return true
+		}
+	}
+	return false
 }
 
 // fillsBuffer: dependency functions that write into the byte slice they are given.
@@ -545,4 +561,130 @@ func init() {
 		"the Open Session Response, RAKP Message 2 and RAKP Message 4", handshake)
 	specialChecks["C11"] = receivedMessageCheck("C11", "bmc:frame:command-responses-written-only-by-their-decoders",
 		"command response structs (types named ...Rsp)", func(n string) bool { return strings.HasSuffix(n, "Rsp") && !handshake(n) })
+}
+
+// C13, package-wide part: every context handed to a callee is the caller's own context or one derived
+// from it (context.With*), in every function of the module that receives a context - so that no
+// blocking call below an exported operation can outlive the context the user passed. A data-flow
+// check over go/ssa (no solver); the per-function at-call clauses (C13.attempt-ctx, retry-ctx, ...)
+// say the same for the functions under contract, this covers the rest (thin wrappers such as Close,
+// GetDeviceID, ...).
+func init() {
+	specialChecks["C13"] = func(w *World, prop string, thorough bool) specialResult {
+		r := specialResult{Backend: "data-flow scan (go/ssa, no solver)", Coverage: map[string]interface{}{}}
+		isCtx := func(t types.Type) bool {
+			nt, ok := t.(*types.Named)
+			return ok && nt.Obj().Pkg() != nil && nt.Obj().Pkg().Path() == "context" && nt.Obj().Name() == "Context"
+		}
+		var bad []string
+		n, calls := 0, 0
+		for f := range w.AllFuncs {
+			if f.Pkg == nil || f.Blocks == nil || !strings.HasPrefix(f.Pkg.Pkg.Path(), modPath) || strings.Contains(f.Pkg.Pkg.Path(), "/cmd/") || w.isContractFileFunc(f) {
+				continue
+			}
+			// the contexts this function owns: parameters and captured variables of context type
+			own := map[ssa.Value]bool{}
+			for _, p := range f.Params {
+				if isCtx(p.Type()) {
+					own[p] = true
+				}
+			}
+			for _, fv := range f.FreeVars {
+				if pt, ok := fv.Type().(*types.Pointer); ok && isCtx(pt.Elem()) {
+					own[fv] = true
+				} else if isCtx(fv.Type()) {
+					own[fv] = true
+				}
+			}
+			if len(own) == 0 {
+				continue
+			}
+			n++
+			// a context parameter captured by a closure lives in a cell: the cell stands for the parameter
+			// if nothing else is ever stored into it
+			cellOK := map[ssa.Value]bool{}
+			for _, b := range f.Blocks {
+				for _, in := range b.Instrs {
+					if st, ok := in.(*ssa.Store); ok {
+						if al, isAlloc := st.Addr.(*ssa.Alloc); isAlloc && isCtx(al.Type().(*types.Pointer).Elem()) {
+							if prev, seen := cellOK[al]; own[st.Val] && (!seen || prev) {
+								cellOK[al] = true
+							} else {
+								cellOK[al] = false
+							}
+						}
+					}
+				}
+			}
+			for al, ok := range cellOK {
+				if ok {
+					own[al] = true
+				}
+			}
+			var derived func(v ssa.Value, depth int) bool
+			derived = func(v ssa.Value, depth int) bool {
+				if depth > 20 {
+					return false
+				}
+				if own[v] {
+					return true
+				}
+				switch x := v.(type) {
+				case *ssa.Phi:
+					for _, e := range x.Edges {
+						if e != v && !derived(e, depth+1) {
+							return false
+						}
+					}
+					return true
+				case *ssa.Extract:
+					return derived(x.Tuple, depth+1)
+				case *ssa.ChangeInterface:
+					return derived(x.X, depth+1)
+				case *ssa.MakeInterface:
+					return derived(x.X, depth+1)
+				case *ssa.UnOp:
+					// load of a captured context variable
+					return x.Op == token.MUL && derived(x.X, depth+1)
+				case *ssa.Call:
+					// context.WithTimeout / WithDeadline / WithCancel / WithValue(parent, ...), backoff.WithContext is not a context
+					if cal := x.Call.StaticCallee(); cal != nil && cal.Pkg != nil && cal.Pkg.Pkg.Path() == "context" && strings.HasPrefix(cal.Name(), "With") && len(x.Call.Args) > 0 {
+						return derived(x.Call.Args[0], depth+1)
+					}
+				}
+				return false
+			}
+			for _, b := range f.Blocks {
+				for _, in := range b.Instrs {
+					ci, ok := in.(ssa.CallInstruction)
+					if !ok {
+						continue
+					}
+					for _, a := range ci.Common().Args {
+						if !isCtx(a.Type()) {
+							continue
+						}
+						calls++
+						if !derived(a, 0) {
+							bad = append(bad, fmt.Sprintf("%s passes a context that is not derived from its own (%s)", w.funcDisplay(f), w.Fset.Position(ci.Pos())))
+						}
+					}
+				}
+			}
+		}
+		sort.Strings(bad)
+		r.Obligations = 1
+		if len(bad) == 0 && n > 0 {
+			r.Discharged = 1
+		} else {
+			p := fmt.Sprintf("%s/context_flow.txt", replayDir(prop))
+			writeTextFile(p, "// Replay record written by bmcvc.\n// property:   C13\n// obligation: bmc:flow:every-context-passed-on-derives-from-the-caller's\n// result:     no failing input found (data-flow check)\n//\n//   "+strings.Join(bad, "\n//   ")+"\n")
+			r.Violations = append(r.Violations, fmt.Sprintf("VIOLATION property=%s replay=%s no-failing-input-found", prop, p))
+			fmt.Printf("  obligation bmc:flow:every-context-passed-on-derives-from-the-caller's fails: %v\n", bad)
+		}
+		r.Coverage["functions_with_a_context_scanned"] = n
+		r.Coverage["context_arguments_checked"] = calls
+		r.Samples = []map[string]interface{}{{"obligation": "bmc:flow:every-context-passed-on-derives-from-the-caller's", "offenders": bad}}
+		return r
+	}
 }
